@@ -16,7 +16,7 @@
     cc,k / cr,k,nil|err,snap   Router.Close call / return;  snap = settlement of every message read synchronously
                           right after the return: u:a|n|- joined by +
     stp,h / stpr,h,ok|panic    Handler.Stop         st,h  Started() seen closed     sd,h  Stopped() seen closed
-    sdnil,h               Stopped() returned a nil channel        rng  Running() seen closed       cx  Run ctx cancelled
+    sdnil,h               Stopped() returned a nil channel        rng / nrng  Running() seen closed / found open (no wait)       cx  Run ctx cancelled
     wce                   the self-close watcher's Close returned an error (logged by the router)
     qs                    quiescence: the goroutine census ran and found no goroutine of the router / handlers / decorators
     scd                   Close called on a router-level subscriber decorator that fails before it reaches the wrapped subscriber
@@ -35,7 +35,7 @@ def knownKinds : List (String × Nat) :=
   [("ahc",1),("ah",2),("ahp",1),("rc",1),("rr",3),("rhc",1),("rhr",2),("sub",1),("em",2),("ea",2),("hs",2),("hg",2),("he",3),
    ("pb",2),("pc",1),("sc",1),("scr",1),("cc",1),("cr",3),("stp",1),("stpr",2),("st",1),("sd",1),("sdnil",1),("rng",0),
    ("cx",0),("go",0),("qs",0),("sube",1),("nst",1),("sgo",0),("rel",0),("wce",0),("fin",3),("kr",2),("ks",2),("kp",2),("kb",2),("kS",0),("kL",0),("kR",0),
-   ("kh",1),("kg",1),("kw",0),("kd",1),("kl",0),("crash",0),("scd",0)]
+   ("kh",1),("kg",1),("kw",0),("kd",1),("kl",0),("crash",0),("scd",0),("nrng",0)]
 
 def numOf (f : String) : Nat :=
   match f.toNat? with
@@ -293,6 +293,10 @@ def c10StopIsolated (evs : Array Ev) : String := Id.run do
 /-- "When the last handler ends or the Run context is cancelled the router closes itself and Run returns nil;
     a second Run returns an error" -/
 def c10SelfClose (evs : Array Ev) : String := Id.run do
+  -- a second Run is refused at once: it returns (an error); one that is let in blocks like the first
+  for e in evs do
+    if e.k == "rc" && e.n0 != 0 && !anyEv evs (fun a => a.k == "rr" && a.n0 == e.n0) then
+      return "violated:second_run_was_let_in(it_did_not_return_an_error)"
   for e in evs do
     if e.k == "fin" && e.s.getD 0 "" != "0" then return "violated:stuck(a_wait_ran_into_the_liveness_bound)"
     if e.k == "fin" && e.n1 > 0 then return "violated:router_goroutine_remains"
